@@ -70,7 +70,11 @@ class HTTPConnection(Mapping[str, Any], MoreInfoFromHeaderMixin):
         """
         The full URL of this request.
         """
-        return URL(environ=self._environ)
+        try:
+            return URL(environ=self._environ)
+        except ValueError:
+            # e.g. Host: "[", a path or query that is not UTF-8
+            raise HTTPException(400, content="Malformed request URL") from None
 
     @cached_property
     def path_params(self) -> Dict[str, Any]:
